@@ -16,6 +16,9 @@ use core::mem::{needs_drop, size_of, MaybeUninit};
 use core::marker::PhantomPinned;
 use core::task::{Poll, Context, Waker};
 use core::time::Duration;
+// module aliases a maintainer may import instead of spelling full paths
+use std::thread;
+use core::{mem, ptr, hint};
 verus! {
 global size_of usize == 8;
 
@@ -197,6 +200,9 @@ pub proof fn axiom_owner_cancels<T>(list: Seq<SignalTerminator<T>>, i: int, sig:
 {}
 
 pub assume_specification<T> [core::mem::drop] (_0: T);
+/// `mem::take` on an `Option` is `Option::take` (its `Default` is `None`)
+pub assume_specification<T: Default> [core::mem::take::<T>] (_0: &mut T) -> (r: T)
+    ensures r == *old(_0), call_ensures(T::default, (), *final(_0));
 
 // ------------------------------------------------------------------ T2-T8: signals
 pub open spec fn big<T>() -> bool { size_of::<T>() > size_of::<*mut T>() }
@@ -347,7 +353,7 @@ impl<T> SignalTerminator<T> {
     /// T2
     #[verifier::external_body]
     pub unsafe fn send(self, data: T, Tracked(fx): Tracked<&mut Fx<T>>)
-        requires /*@tag:O-own-pop C01 C03 C05*/ old(fx).used.count((self, Role::Receiver)) < old(fx).popped.count((self, Role::Receiver)),
+        requires /*@tag:O-own-pop C01 C03 C05 C04*/ old(fx).used.count((self, Role::Receiver)) < old(fx).popped.count((self, Role::Receiver)),
         ensures final(fx).used == old(fx).used.insert((self, Role::Receiver)), final(fx).sent == old(fx).sent.push((self, data)),
             final(fx).popped == old(fx).popped, final(fx).cs == old(fx).cs, final(fx).taken == old(fx).taken,
             final(fx).terminated == old(fx).terminated, final(fx).held == old(fx).held, final(fx).listed == old(fx).listed,
@@ -356,7 +362,7 @@ impl<T> SignalTerminator<T> {
     /// T3
     #[verifier::external_body]
     pub unsafe fn recv(self, Tracked(fx): Tracked<&mut Fx<T>>) -> (r: T)
-        requires /*@tag:O-own-pop C01 C03 C05*/ old(fx).used.count((self, Role::Sender)) < old(fx).popped.count((self, Role::Sender)),
+        requires /*@tag:O-own-pop C01 C03 C05 C04*/ old(fx).used.count((self, Role::Sender)) < old(fx).popped.count((self, Role::Sender)),
         ensures r == payload(self),
             final(fx).used == old(fx).used.insert((self, Role::Sender)), final(fx).taken == old(fx).taken.push(self),
             final(fx).popped == old(fx).popped, final(fx).cs == old(fx).cs, final(fx).sent == old(fx).sent,
